@@ -267,6 +267,11 @@ pub fn build_csr<Ty: EdgeType, E: EW>(ag: &AG, hist: usize, rng: &mut Rng) -> (C
     for &k in &eo {
         let (s, t, w) = ag.edges[k];
         g.add_edge(s as u32, t as u32, E::from_i64(w));
+        if hist >= 1 && rng.chance(1, 3) {
+            // a refused duplicate (also in the opposite orientation): nothing may change, cached counts included
+            let (a, b) = if rng.chance(1, 2) { (s, t) } else { (t, s) };
+            if ag.directed { g.add_edge(s as u32, t as u32, E::from_i64(GARBAGE_W)); } else { g.add_edge(a as u32, b as u32, E::from_i64(GARBAGE_W)); }
+        }
     }
     (g, (0..ag.n as u32).collect())
 }
